@@ -232,7 +232,13 @@ func (m *ledgerMon) check(h uint32, b *BlockSpec, prevDump, dump []string, prevW
 			if !winners && len(L.Rates[int64(h)]) > 0 {
 				m.violate("rates:recorded-without-winners:"+eraOf(a, h), fmt.Sprintf("%d rate rows recorded although neither record set has winners (%d OPR / %d SPR entries in the block)", len(L.Rates[int64(h)]), len(b.OPR), len(b.SPR)), h)
 			}
-			m.rep.Count(fmt.Sprintf("rates:winners=%v,recorded=%v", winners, len(L.Rates[int64(h)]) > 0))
+			// ... and a block where exactly one record set has winners records that winner's rates
+			// ("combined with the winning SPR … when both are present" leaves nothing to fail on)
+			oneSided := (len(ow) > 0) != (h >= a.V20 && len(sw) > 0)
+			if oneSided && len(L.Rates[int64(h)]) == 0 {
+				m.violate("rates:missing-with-one-sided-winners:"+eraOf(a, h), fmt.Sprintf("no rate rows recorded although exactly one record set has winners (%d OPR winners, %d SPR winners)", len(ow), len(sw)), h)
+			}
+			m.rep.Count(fmt.Sprintf("rates:winners=%v,one-sided=%v,recorded=%v", winners, oneSided, len(L.Rates[int64(h)]) > 0))
 		}
 	}
 	// C15: developer payouts
@@ -1037,6 +1043,7 @@ func runLedgerChainWith(rep *Report, seed int64, variant int, tier string, acts 
 		prevDump = res.Dump
 		if h == last {
 			pagingCheck(rep, run, g, s, seed)
+			apiPagingCheck(rep, run, g, s, seed)
 		}
 		if h%61 == 0 {
 			rep.Sample(map[string]interface{}{"height": h, "era": eraOf(s.Acts, h), "opr": len(b.OPR), "spr": len(b.SPR), "tx": len(b.TX), "dump_lines": len(res.Dump)})
